@@ -21,13 +21,19 @@
 (*   of_nat / of_int : the embeddings;  abs n = (if 0 <= n then n else -n)                                     *)
 (* A constant at a type where the library gives it no meaning (uminus / real_divide at nat, ...), anything    *)
 (* ill-typed or irrational (sqrt of a non-square, exp, log, sin, pi, non-integer exponents) evaluates to NA:  *)
-(* such statements are NOT EXAMINED (never judged).                                                           *)
+(* such statements are NOT EXAMINED (never judged) -- except COMPARISONS OF SURDS, see below.                 *)
 (* Magnitudes: Val works with TLC's native integers and gives NA beyond Rat.RatLim = 2^30 - 1.  A CLOSED      *)
 (* statement that Val cannot decide is evaluated again by BVal, the same meaning over arbitrary-precision     *)
 (* integers (lib/BigInt.tla: limb arithmetic, unnormalised rationals compared by cross-multiplication; no     *)
-(* division, so DIV / MOD / sqrt / integer-valued-but-unreduced exponents stay NA there).  BVal is only a     *)
+(* division, so DIV / MOD / integer-valued-but-unreduced exponents stay NA there).  BVal is only a            *)
 (* fallback: wherever Val decides, its verdict stands (C05_Arith checks that the two agree on the universe).  *)
-EXTENDS Integers, Sequences, FiniteSets, Rat, BigInt
+(* Surds: a closed real comparison (= < <= > >=) one of whose sides BVal cannot evaluate is decided EXACTLY    *)
+(* when both sides have the form  q + c * sqrt r  with q, c, r rational (SVal: rationals, sqrt of a rational   *)
+(* of either sign -- sqrt x = sgn x * sqrt |x| in holpy --, closed under uminus, abs, + and - with a rational,  *)
+(* * and / by a rational, the inverse of a pure root).  The comparison is C05_Surd!SCmp: sign analysis and     *)
+(* squaring in arbitrary-precision rational arithmetic, no approximation (laws model-checked in C05_SurdLaws). *)
+(* Sums / products of two irrational surds, roots of surds, powers of surds stay NA.                          *)
+EXTENDS Integers, Sequences, FiniteSets, Rat, BigInt, C05_Surd
 
 NumT == {"nat", "int", "real"}
 NA == <<"na", 0, 1>>
@@ -134,7 +140,11 @@ QPowG(x, n) == IF n = 0 THEN QOne
                ELSE IF n > BPowMax \/ n * (Len(x[1][2]) + Len(x[2][2])) > 400 THEN QPowBig ELSE QPowRec(x, n)
 BMkP(T, r) == IF r = QPowBig THEN NAb ELSE BMkV(T, r)
 LimbsOf(as) == [i \in 1..Len(as) |-> as[i][4]]
-RECURSIVE BVal(_)
+\* the value of a real term as a surd: << "s", q, s >> for q + ssqrt s, or SNA
+SNA == <<"na", QZero, QZero>>
+SMk(a) == <<"s", a[1], a[2]>>
+SOf(v) == <<v[2], v[3]>>
+RECURSIVE BVal(_), SVal(_)
 BVal(e) ==
   LET h == e[1]  ts == e[2]  as == e[3]  k == Len(e[3])  nt == Len(e[2])
       a1 == IF k >= 1 THEN BVal(as[1]) ELSE NAb
@@ -144,6 +154,9 @@ BVal(e) ==
       bin(S) == k = 2 /\ ts = <<S, S, S>> /\ a1[1] = S /\ a2[1] = S
       rel(S) == k = 2 /\ ts = <<S, S, "bool">> /\ a1[1] = S /\ a2[1] = S
       small(v) == BSmall(v[2]) /\ v[3] = BOne
+      s1 == IF k >= 1 THEN SVal(as[1]) ELSE SNA
+      s2 == IF k >= 2 THEN SVal(as[2]) ELSE SNA
+      srel == k = 2 /\ ts = <<"real", "real", "bool">> /\ s1[1] = "s" /\ s2[1] = "s"       \* a comparison of two surds
   IN
   CASE h = "#bin" -> IF k = 0 /\ ts = <<"nat">> /\ e[4] >= 0 THEN <<"nat", BFromInt(e[4]), BOne>> ELSE NAb
     [] h = "#bign" -> IF k >= 1 /\ ts = <<"nat">> /\ (\A i \in 1..k : as[i][1] = "#l" /\ Len(as[i][3]) = 0) /\ BLimbsOk(LimbsOf(as))
@@ -187,14 +200,40 @@ BVal(e) ==
          IF T \in NumT /\ rel(T)
          THEN LET c == QCmp(QB(a1), QB(a2)) IN
               BBoolV(CASE h = "less" -> c = -1 [] h = "less_eq" -> c # 1 [] h = "greater" -> c = 1 [] OTHER -> c # -1)
+         ELSE IF srel
+         THEN LET c == SCmp(SOf(s1), SOf(s2)) IN
+              BBoolV(CASE h = "less" -> c = -1 [] h = "less_eq" -> c # 1 [] h = "greater" -> c = 1 [] OTHER -> c # -1)
          ELSE NAb
     [] h = "equals" -> IF T \in NumT /\ rel(T) THEN BBoolV(QCmp(QB(a1), QB(a2)) = 0)
-                       ELSE IF T = "bool" /\ rel(T) THEN BBoolV(a1[2] = a2[2]) ELSE NAb
+                       ELSE IF T = "bool" /\ rel(T) THEN BBoolV(a1[2] = a2[2])
+                       ELSE IF srel THEN BBoolV(SCmp(SOf(s1), SOf(s2)) = 0) ELSE NAb
     [] h = "neg" -> IF un("bool", "bool") THEN BBoolV(a1[2] = BZero) ELSE NAb
     [] h = "conj" -> IF bin("bool") THEN BBoolV(a1[2] = BOne /\ a2[2] = BOne) ELSE NAb
     [] h = "disj" -> IF bin("bool") THEN BBoolV(a1[2] = BOne \/ a2[2] = BOne) ELSE NAb
     [] h = "implies" -> IF bin("bool") THEN BBoolV(a1[2] = BZero \/ a2[2] = BOne) ELSE NAb
     [] OTHER -> NAb
+SVal(e) ==
+  LET v == BVal(e) IN
+  IF v[1] = "real" THEN <<"s", QB(v), QZero>>
+  ELSE IF v[1] # "na" THEN SNA
+  ELSE
+  LET h == e[1]  ts == e[2]  as == e[3]  k == Len(e[3])
+      x == IF k >= 1 THEN SVal(as[1]) ELSE SNA
+      y == IF k >= 2 THEN SVal(as[2]) ELSE SNA
+      un == k = 1 /\ ts = <<"real", "real">> /\ x[1] = "s"
+      bin == k = 2 /\ ts = <<"real", "real", "real">> /\ x[1] = "s" /\ y[1] = "s"
+      X == SOf(x)  Y == SOf(y)
+  IN
+  CASE h = "sqrt" -> IF un /\ SIsRat(X) THEN SMk(SRoot(X[1])) ELSE SNA
+    [] h = "uminus" -> IF un THEN SMk(SNeg(X)) ELSE SNA
+    [] h = "abs" -> IF un THEN SMk(SAbs(X)) ELSE SNA
+    [] h = "real_inverse" -> IF un /\ SHasInv(X) THEN SMk(SInv(X)) ELSE SNA
+    [] h = "plus" -> IF bin /\ SIsRat(Y) THEN SMk(SAddQ(X, Y[1])) ELSE IF bin /\ SIsRat(X) THEN SMk(SAddQ(Y, X[1])) ELSE SNA
+    [] h = "minus" -> IF bin /\ SIsRat(Y) THEN SMk(SAddQ(X, QNeg(Y[1]))) ELSE IF bin /\ SIsRat(X) THEN SMk(SAddQ(SNeg(Y), X[1])) ELSE SNA
+    [] h = "times" -> IF bin /\ SIsRat(Y) THEN SMk(SMulQ(X, Y[1])) ELSE IF bin /\ SIsRat(X) THEN SMk(SMulQ(Y, X[1])) ELSE SNA
+    [] h = "real_divide" -> IF bin /\ SIsRat(Y) THEN SMk(SMulQ(X, QInv(Y[1])))                \* x / 0 = 0
+                            ELSE IF bin /\ SIsRat(X) /\ SHasInv(Y) THEN SMk(SMulQ(SInv(Y), X[1])) ELSE SNA
+    [] OTHER -> SNA
 BSeqTruth(hs, c) == LET hv == [i \in 1..Len(hs) |-> BVal(hs[i])]  cv == BVal(c) IN
                     IF \E i \in 1..Len(hs) : hv[i][1] # "bool" THEN "NA"
                     ELSE IF \E i \in 1..Len(hs) : hv[i][2] = BZero THEN "T"
